@@ -473,7 +473,9 @@ func (ex *Exec) checkFrame(fc *FuncContract, ret *State, fn *ssa.Function) {
 	skip := KeySet{}
 	for mk := range ex.monitorsAcquired {
 		if md := ex.prog.Contracts.Monitors[mk]; md != nil {
+			ex.prog.Pre.mu.Lock()
 			ex.prog.Pre.monitorKeys(md, skip)
+			ex.prog.Pre.mu.Unlock()
 		}
 	}
 	diff := ex.heapDiff(f1, e1)
